@@ -99,7 +99,127 @@ def structure_items():
     m.m["tables"].append({"kind": "externref", "min": 1, "max": -1})
     m.func([], [I32], [], [wasmgen.const(I32, 1)], export="one")
     out.append(wasmgen.item("externref_table", m, []))
+    out += limit_items() + [blocktype_high_item(), shadowed_label_item()]
     return out
+
+
+def limit_items():
+    """Limits at their edges: maximum 0, minimum = maximum, maximum 65536, minimum 0 without maximum."""
+    M, I32 = wasmgen.Mod, wasmgen.I32
+    out = []
+    for mn, mx in ((0, 0), (1, 1), (0, -1), (2, 65536), (0, 1)):
+        m = M()
+        m.memory(mn, mx, export="memory")
+        m.func([], [I32], [], [wasmgen.ins("memory.size", m=0)], export="size")
+        out.append(wasmgen.item("limits_mem_%d_%s" % (mn, "none" if mx < 0 else mx), m, [[wasmgen.C("size", [], [])]]))
+    for mn, mx in ((0, 0), (3, 3), (0, -1), (0, 5), (2, 65536)):
+        m = M()
+        m.table(mn, mx)
+        m.m["exports"].append({"name": "table", "kind": "table", "idx": 0})
+        m.func([], [I32], [], [wasmgen.const(I32, 1)], export="one")
+        out.append(wasmgen.item("limits_tab_%d_%s" % (mn, "none" if mx < 0 else mx), m, [[wasmgen.C("one", [], [])]]))
+    return out
+
+
+def blocktype_high_item():
+    """Block types given by type indices whose LEB128 form differs between the signed and the unsigned encoding
+    (64..127), and by a two-byte index."""
+    M, I32, I64 = wasmgen.Mod, wasmgen.I32, wasmgen.I64
+    m = M()
+    for k in range(64):
+        m.type([I64] * (k % 4) + [I32] * (k // 4), [])
+    t64 = m.type([I32], [I32])
+    for k in range(62):
+        m.type([I64] * (k % 4) + [I32] * (k // 4), [I64, I64])
+    t127 = m.type([I64], [I64])
+    m.type([I32, I32], [I32, I32])
+    m.type([I64, I32], [I32, I32])
+    t130 = m.type([], [I32])
+    assert (t64, t127, t130) == (64, 127, 130)
+    m.func([I32], [I32], [], [wasmgen.lget(0), wasmgen.block(wasmgen.bt_idx(t64)), wasmgen.const(I32, 5), wasmgen.simple("i32.mul"),
+                              wasmgen.END], export="b64")
+    m.func([I64], [I64], [I64], [wasmgen.lget(0), wasmgen.loop(wasmgen.bt_idx(t127)), wasmgen.const(I64, 1), wasmgen.simple("i64.add"),
+                                 wasmgen.ltee(1), wasmgen.lget(1), wasmgen.const(I64, 3), wasmgen.simple("i64.lt_s"),
+                                 wasmgen.br_if(0), wasmgen.END], export="l127")
+    m.func([I32], [I32], [], [wasmgen.lget(0), wasmgen.if_(wasmgen.bt_idx(t130)), wasmgen.const(I32, 1), wasmgen.ELSE,
+                              wasmgen.const(I32, 2), wasmgen.END], export="i130")
+    C = wasmgen.C
+    return wasmgen.item("blocktype_high", m, [[C("b64", [7], [I32]), C("l127", [0], [I64]), C("l127", [9], [I64]),
+                                               C("i130", [0], [I32]), C("i130", [5], [I32])]])
+
+
+def shadowed_label_item():
+    """Text with symbolic labels where an inner block re-uses the name of an enclosing one: a branch binds to the
+    innermost block of that name.  (The abstract module is written with depths; the text by hand.)"""
+    M, I32 = wasmgen.Mod, wasmgen.I32
+    w = wasmgen
+    m = M()
+    m.func([I32], [I32], [], [w.block(w.bt_val(I32)), w.block(w.bt_val(I32)), w.const(I32, 10), w.lget(0), w.br_if(0),
+                              w.simple("drop"), w.const(I32, 20), w.END, w.const(I32, 1), w.simple("i32.add"), w.END], export="f")
+    m.func([I32], [I32], [I32], [w.block(), w.loop(), w.lget(1), w.const(I32, 1), w.simple("i32.add"), w.lset(1),
+                                 w.block(), w.lget(1), w.lget(0), w.simple("i32.lt_u"), w.br_if(1), w.br(2), w.END,
+                                 w.END, w.END, w.lget(1)], export="g")
+    m.func([I32], [I32], [], [w.block(w.bt_val(I32)), w.const(I32, 100), w.lget(0), w.if_(w.bt_val(I32)), w.const(I32, 7),
+                              w.lget(0), w.br_table([0, 1], 0), w.ELSE, w.const(I32, 8), w.END, w.simple("i32.add"), w.END],
+           export="h")
+    wat = """(module
+  (type (func (param i32) (result i32)))
+  (func (type 0)
+    block $l (result i32)
+      block $l (result i32)
+        i32.const 10
+        local.get 0
+        br_if $l
+        drop
+        i32.const 20
+      end
+      i32.const 1
+      i32.add
+    end
+  )
+  (func (type 0)
+    (local i32)
+    block $x
+      loop $x
+        local.get 1
+        i32.const 1
+        i32.add
+        local.set 1
+        block $x
+          local.get 1
+          local.get 0
+          i32.lt_u
+          br_if 1
+          br 2
+        end
+      end
+    end
+    local.get 1
+  )
+  (func (type 0)
+    block $l (result i32)
+      i32.const 100
+      local.get 0
+      if $l (result i32)
+        i32.const 7
+        local.get 0
+        br_table $l 1 $l
+      else
+        i32.const 8
+      end
+      i32.add
+    end
+  )
+  (export "f" (func 0))
+  (export "g" (func 1))
+  (export "h" (func 2))
+)
+"""
+    C = wasmgen.C
+    it = wasmgen.item("shadowed_labels", m, [[C("f", [1], [I32]), C("f", [0], [I32]), C("g", [0], [I32]), C("g", [3], [I32]),
+                                                C("h", [0], [I32]), C("h", [1], [I32]), C("h", [2], [I32])]])
+    it["wat"] = wat
+    return it
 
 
 def ir_items(ctx, n):
